@@ -254,6 +254,8 @@ fn shrink_case(c: &Case, q: &Query, phase: &str) -> Case {
 }
 
 struct Ctx<'a> {
+    /// options of the pre-filter call as the translator read them from Memvid::search: (threshold, multiplier, floor)
+    opts: (u32, usize, usize),
     drv: Option<&'a mut Driver>,
     sum: &'a mut Summary,
     known: Vec<String>,
@@ -293,7 +295,7 @@ fn run_phase(mem: &mut Memvid, c: &Case, phase: &str, cx: &mut Ctx) -> bool {
         // evaluated list is assembled (the recency re-sort depends on the set of documents that got through)
         let reference = if q.no_sketch { truth.clone() } else { do_search(mem, &text, big, q.snippet, false) };
         let cands_real: Option<Vec<u64>> = if mem.has_sketches() && !q.no_sketch {
-            let opts = SketchSearchOptions { hamming_threshold: 32, max_candidates: (q.top_k * 10).max(500), min_score: 0.0 };
+            let opts = SketchSearchOptions { hamming_threshold: cx.opts.0, max_candidates: (q.top_k * cx.opts.1).max(cx.opts.2), min_score: 0.0 };
             Some(mem.find_sketch_candidates(&text, Some(opts)).iter().map(|c| c.frame_id).collect())
         } else { None };
         // evaluated list in the engine's ranking order (complete no_sketch request), slices for this page size
@@ -398,7 +400,7 @@ fn run_phase(mem: &mut Memvid, c: &Case, phase: &str, cx: &mut Ctx) -> bool {
                         let b: BTreeSet<u64> = parse_ids(m_cands).into_iter().collect();
                         if m_cands == "off" { diffs.push("sketch stage: model off impl on".into()); }
                         else if !trunc && a != b { diffs.push(format!("sketch candidates: model {} impl {}", m_cands, ids(&a))); }
-                        else if trunc && (!a.is_subset(&b) || a.len() != (q.top_k * 10).max(500)) { diffs.push(format!("truncated sketch candidates: impl {} not a max_candidates-subset of model {}", ids(&a), m_cands)); }
+                        else if trunc && (!a.is_subset(&b) || a.len() != (q.top_k * cx.opts.1).max(cx.opts.2)) { diffs.push(format!("truncated sketch candidates: impl {} not a max_candidates-subset of model {}", ids(&a), m_cands)); }
                     }
                 }
                 let det = field(m, "det") == "1";
@@ -589,24 +591,29 @@ fn main() {
     sum.expect_branches(&["sketch-on", "no-sketch", "phase-live", "phase-reopened", "sketch-filter-applied", "sketch-no-candidates", "recall-complete",
         "recall-lost-to-hamming-cut", "recall-lost-to-snippet-budget", "recall-lost-to-culled-parent", "chunked-documents", "doc-with-several-slices", "no-match"]);
     let known: Vec<String> = args.extra.get("known").map(|s| s.split(',').map(|x| x.to_string()).collect()).unwrap_or_default();
+    // the harness repeats the pre-filter call of Memvid::search through the public API: take its options from the
+    // translator's reading of the source (via the driver), so that a changed option is the theorems' business
+    // (C09_constants) and not a spurious candidate mismatch here
+    let mut opts = (32u32, 10usize, 500usize);
     if let Some(d) = drv.as_mut() {
         let c = d.ask("consts");
-        if c != "32 10 500 1 64" {
-            sum.disagreement("constants of the sketch pre-filter (threshold, max_candidates, comparison, bits) differ from the harness's", json!({"consts": c}), &c, "32 10 500 1 64");
-        }
+        let v: Vec<u64> = c.split(' ').filter_map(|x| x.parse().ok()).collect();
+        if v.len() == 5 && v[4] == 64 { opts = (v[0] as u32, v[1] as usize, v[2] as usize); }
+        else { sum.disagreement("driver does not report the pre-filter constants", json!({"consts": c}), &c, "<threshold> <mult> <floor> <strict> 64"); }
+        if c != "32 10 500 1 64" { sum.notes.push(format!("pre-filter constants read from the source: {c} (the recorded findings were established for 32 10 500 1 64)")); }
     }
     if args.mode == "replay" {
         let case = load_replay(args.replay_file.as_ref().expect("replay file"));
         let input = case.get("input").unwrap_or(&case);
         let c = case_from(input);
-        let mut cx = Ctx { drv: drv.as_mut(), sum: &mut sum, known, verbose: true };
+        let mut cx = Ctx { opts, drv: drv.as_mut(), sum: &mut sum, known, verbose: true };
         run_case(&c, &mut cx);
         sum.finish(&args);
     }
     let mut rng = Rng::new(args.seed);
     if let Some(n) = args.extra.get("hunt").and_then(|s| s.parse::<usize>().ok()) {
         // development aid: tiny corpora only (2-3 documents of 6-14 words), stops at the first violation
-        let mut cx = Ctx { drv: drv.as_mut(), sum: &mut sum, known: vec![], verbose: false };
+        let mut cx = Ctx { opts, drv: drv.as_mut(), sum: &mut sum, known: vec![], verbose: false };
         for _ in 0..n {
             let nd = rng.usize(2, 3);
             let base = rng.below(170_000) as u32;
@@ -624,7 +631,7 @@ fn main() {
     }
     let n = if args.thorough { 45 } else { 9 };
     {
-        let mut cx = Ctx { drv: drv.as_mut(), sum: &mut sum, known, verbose: std::env::var("C09_VERBOSE").is_ok() };
+        let mut cx = Ctx { opts, drv: drv.as_mut(), sum: &mut sum, known, verbose: std::env::var("C09_VERBOSE").is_ok() };
         for c in fixed_corpus() { run_case(&c, &mut cx); }
         for i in 0..n {
             let c = gen_case(&mut rng, i, args.thorough);
